@@ -1625,6 +1625,55 @@ func (g *gen) txShaped(ntx int) {
 	do("commit", 0, 0, 0)
 }
 
+// probeAliasing documents, on every run, what happens OUTSIDE the discipline of the generated sessions (nothing
+// here is judged; the outcomes are counted so that a change of this behaviour is visible in the evidence):
+//
+//   - an AccountState that is mutated again after its PutState changes the buffered entry in place
+//     (PutState stores as.newState itself): after a rollback to a snapshot taken between the put and the
+//     mutation the account shows the post-snapshot value;
+//   - SetCode through a handle from OpenContractStateAccount writes the code hash into the buffered record
+//     (GetAccountState returns the buffered *types.State).
+//
+// No caller in the repository does either (see notes/C12.md, "pointer aliasing"); discipline D3 of tx.go and
+// oracle (v) would report it if one did.
+func (g *gen) probeAliasing() {
+	u := getUniverse(2, 2)
+	sdb := statedb.NewStateDB(newStore(), nil, false)
+	bs := state.NewBlockState(sdb)
+	as, err := state.GetAccountState(u.ids[0], sdb)
+	must(err)
+	as.SetNonce(1)
+	must(as.PutState())
+	sn := bs.Snapshot()
+	as.SetNonce(2) // no PutState
+	must(bs.Rollback(sn))
+	st, err := sdb.GetState(u.aids[0])
+	must(err)
+	if st != nil && st.Nonce == 2 {
+		g.run.Count("probe-outside-discipline: reuse of an AccountState after PutState aliases the buffered entry")
+	} else {
+		g.run.Count("probe-outside-discipline: reuse of an AccountState after PutState does NOT alias the buffered entry")
+	}
+	sdb2 := statedb.NewStateDB(newStore(), nil, false)
+	bs2 := state.NewBlockState(sdb2)
+	as2, err := state.GetAccountState(u.ids[1], sdb2)
+	must(err)
+	as2.SetNonce(1)
+	must(as2.PutState())
+	sn2 := bs2.Snapshot()
+	cs, err := statedb.OpenContractStateAccount(u.ids[1], sdb2)
+	must(err)
+	must(cs.SetCode(nil, codeBytes(1)))
+	must(bs2.Rollback(sn2))
+	st2, err := sdb2.GetState(u.aids[1])
+	must(err)
+	if st2 != nil && len(st2.CodeHash) > 0 {
+		g.run.Count("probe-outside-discipline: SetCode through OpenContractStateAccount writes into the buffered record")
+	} else {
+		g.run.Count("probe-outside-discipline: SetCode through OpenContractStateAccount does NOT write into the buffered record")
+	}
+}
+
 // scripted sessions: shapes the proofs case-split on
 func (g *gen) scripted() {
 	scripts := [][]string{
@@ -1756,6 +1805,7 @@ func main() {
 	}
 
 	g.scripted()
+	g.probeAliasing()
 	g.txScripted()
 
 	// exhaustive small scope: 2 accounts x 2 keys
